@@ -85,6 +85,8 @@ func oracleFor(op *Sexp, res string) []string {
 		return oracleJRT(op, res)
 	case "desc":
 		return oracleDesc(op, res)
+	case "internsched":
+		return oracleInternSched(op, res)
 	case "sched":
 		return oracleSched(op, res)
 	case "desccalls":
